@@ -23,7 +23,7 @@ func init() {
 			"(f) the node is offered the worker's whole payload, directly or as the sub-slices [offset:offset+entries] of Scatter's own callback parameters; (g) the semaphore is released by defer after a successful Acquire; " +
 			"(h) classification helpers return nil only on arms guarded by a server-type test (the tolerated (server, message) pairs are extracted and reported, not frozen); " +
 			"(i) util.Scatter starts `workers` goroutines, its channels have capacity `workers` and its collector performs `workers` receives without early exit. " +
-			"Added with the third seeding round: (f, extended) once the semaphore is held every path of a worker calls its node; (i, extended) Scatter's worker count is ceil(inputLen/extent). Added with the fourth seeding round: (k) no errgroup context in the submitter; (l) case-folded texts are searched for constants of the same case. Added with the fifth seeding round: (m) the fields of the structure that decodes a node's indexed-failure answer have the JSON types the node sends. Added with the sixth seeding round and the false-alarm regression: (n) an entry and its worker name one <kind>Submitters field; (y) C19.8 (one path per component request) is taken over; (g, restated) a successful Acquire is followed by a Release (deferred or explicit) on every path. Added with the seventh seeding round: (o) a classification helper cannot return nil after one of its own calls (decoding the node's reply) failed; (p) a worker acquires and releases exactly one permit. NOT decided: lost-wakeup timing of the condition variable, extent arithmetic of Scatter, behaviour when concurrency < nodes, wall-clock bounds.",
+			"Added with the third seeding round: (f, extended) once the semaphore is held every path of a worker calls its node; (i, extended) Scatter's worker count is ceil(inputLen/extent). Added with the fourth seeding round: (k) no errgroup context in the submitter; (l) case-folded texts are searched for constants of the same case. Added with the fifth seeding round: (m) the fields of the structure that decodes a node's indexed-failure answer have the JSON types the node sends. Added with the sixth seeding round and the false-alarm regression: (n) an entry and its worker name one <kind>Submitters field; (y) C19.8 (one path per component request) is taken over; (g, restated) a successful Acquire is followed by a Release (deferred or explicit) on every path. Added with the seventh seeding round: (o) a classification helper cannot return nil after one of its own calls (decoding the node's reply) failed; (p) a worker acquires and releases exactly one permit. Added with the ninth seeding round: (m, extended) the status code of an error body has the JSON type the client sends (Lighthouse a number, Teku a string). NOT decided: lost-wakeup timing of the condition variable, extent arithmetic of Scatter, behaviour when concurrency < nodes, wall-clock bounds.",
 		Technique: "template conformance of sibling implementations on SSA (roles bound by types and call resolution), AST loop-exit analysis, guard/edge-deletion queries, error-nilness analysis of classification helpers, provenance of goroutine arguments",
 		Rule:      "obligations (a)-(g) per submitter entry/worker pair, (h) per classification helper, (i) for Scatter",
 	})
